@@ -17,7 +17,7 @@ impl Prop for C11Prop {
         "C11"
     }
     fn rule(&self) -> String {
-        "Streams (proptest tapes): prog / progbig = grammar-derived ASCII-only programs with comments, use_tabs=false, other settings generated; width pairs W1 < W2 from {10,15,20,30,40,60,80,100,120,160,200} and random 8..250; stream tight: W1 within two columns of the length of a line of the wide result and W2 = W1 + {1,2,3,10,40}, or W2 up to 20 columns below that length and W1 a further 1..30 below (boundary-directed). Streams simple / simple_tight: the strictly asserted domain (simple expressions, declarations incl. variant records with several labels, trailing / own-line / mid-statement `//` comments, continuation <= 8 columns). Oracles: (a) if every line of format_W2(x) has <= W1 bytes then format_W1(x) == format_W2(x); (b) lines(format_W2(x)) <= lines(format_W1(x)); (c) if every line of format_W1(x) has <= W1 bytes then every line of format_W2(x) has <= W2. Width = bytes = chars = columns on this domain. Runs where the wrapper logged 'Iteration limit reached' are classified separately. Non-trivial = the two outputs differ, or premise (a) holds with a wrapped line; distinct by hash of (input, configuration, W2)."
+        "Streams (proptest tapes): prog / progbig = grammar-derived ASCII-only programs with comments, use_tabs=false, other settings generated; width pairs W1 < W2 from {10,15,20,30,40,60,80,100,120,160,200} and random 8..250; stream tight: W1 within two columns of the length of a line of the wide result and W2 = W1 + {1,2,3,10,40}, or W2 up to 20 columns below that length and W1 a further 1..30 below (boundary-directed). Streams simple / simple_tight: the strictly asserted domain (simple expressions, declarations incl. variant records with several labels, trailing / own-line / mid-statement `//` comments, continuation <= 8 columns). Stream lits_tight: statements containing valid multi-line string literals followed by further tokens (`'''.Format(A, B)`, call argument, concatenation, first token of the statement, if-condition) 0-3 blocks deep, soft or hard tabs, the same boundary-directed widths. Oracles: (a) if every line of format_W2(x) has <= W1 bytes then format_W1(x) == format_W2(x); (b) lines(format_W2(x)) <= lines(format_W1(x)); (c) if every line of format_W1(x) has <= W1 bytes then every line of format_W2(x) has <= W2. Width = bytes = chars = columns on this domain. Runs where the wrapper logged 'Iteration limit reached' are classified separately. Non-trivial = the two outputs differ, or premise (a) holds with a wrapped line; distinct by hash of (input, configuration, W2)."
             .into()
     }
     fn assumptions(&self) -> Vec<String> {
@@ -32,9 +32,66 @@ impl Prop for C11Prop {
         v.push(Stream::random("simple_tight", if q { 2500 } else { 30000 }, 700));
         // declaration sections only (records with variant parts, classes, enums, ...)
         v.push(Stream::random("simple_decls_tight", if q { 1500 } else { 20000 }, 700));
+        // statements with multi-line string literals (C12's shapes), hard tabs included
+        v.push(Stream::random("lits_tight", if q { 1500 } else { 20000 }, 300));
         v
     }
     fn generate(&self, stream: &str, t: &mut Tape) -> Option<Case> {
+        if stream == "lits_tight" {
+            // valid ASCII literals (LF, space-indented) in a few statement shapes, 0-3 blocks deep
+            let depth = t.below(4) as usize;
+            let mut src = String::new();
+            for d in 0..depth {
+                src.push_str(&"  ".repeat(d));
+                src.push_str("begin\n");
+            }
+            let n = 1 + t.below(3);
+            for _ in 0..n {
+                let lit = crate::gen::mlstr::gen_valid_literal(t, true);
+                let ind = "  ".repeat(depth);
+                let stmt = match t.below(6) {
+                    0 => format!("{ind}S := {lit}.Format(Alpha, Beta);\n"),
+                    1 => format!("{ind}Foo(Alpha, {lit}, Beta);\n"),
+                    2 => format!("{ind}S := Prefix + {lit} + Suffix(1, 2);\n"),
+                    3 => format!("{ind}{lit}.Foo(Aaa, Bbbbbb);\n"),
+                    4 => format!("{ind}if S = {lit}.Trim then\n{ind}  Bar(1, 2, 3);\n"),
+                    _ => format!("{ind}Result := Combine({lit}.Trim, Other.Value, 100);\n"),
+                };
+                src.push_str(&stmt);
+            }
+            // closers are not needed for the oracle; an unterminated block is still laid out
+            for d in (0..depth).rev() {
+                src.push_str(&"  ".repeat(d));
+                src.push_str("end;\n");
+            }
+            let mut c = Case::text("lits_tight", src, Cfg::gen_unsaturated(t));
+            c.cfg.tab_width = *t.pick(&[2, 4, 2, 3, 1]);
+            c.cfg.continuation_indents = *t.pick(&[2, 1, 2]);
+            c.cfg.use_tabs = t.chance(1, 3);
+            c.cfg.wrap_column = 250;
+            let wide = format_with(&c.cfg, &c.input);
+            let lines: Vec<&str> = wide.lines().filter(|l| l.len() >= 10).collect();
+            if lines.is_empty() {
+                return None;
+            }
+            let l = lines[t.below(lines.len() as u32) as usize].len() as u32;
+            let (w1, w2);
+            if t.chance(1, 2) {
+                w1 = (l + t.below(4)).saturating_sub(2).max(8);
+                w2 = w1 + *t.pick(&[1, 1, 2, 3, 10, 40]);
+            } else {
+                let hi = l.saturating_sub(1 + t.below(l.min(40) / 2)).max(9);
+                let lo = hi.saturating_sub(*t.pick(&[1, 2, 4, 8, 12, 16, 20, 30])).max(8);
+                w2 = if lo >= hi { lo + 1 } else { hi };
+                w1 = lo;
+            }
+            c.cfg.wrap_column = w1;
+            c.cfg2 = Some(Cfg { wrap_column: w2, ..c.cfg.clone() });
+            c.gen = "lits_tight".into();
+            c.tags.push("simple-domain".into());
+            c.tags.push("lits-domain".into());
+            return Some(c);
+        }
         let mut cfg = Cfg::gen_unsaturated(t);
         cfg.use_tabs = false;
         let mut w1 = if t.chance(1, 5) { t.range(8, 250) } else { *t.pick(WIDTHS) };
